@@ -70,6 +70,33 @@ def generate(rng, tier):
         f = struct.unpack("<d", struct.pack("<Q", rng.getrandbits(63)))[0]
         if f == f and f != float("inf"):
             add(b"[" + repr(f).encode() + b",-" + repr(f).encode() + b"]", "doubles")
+    # the longest number texts (25-byte fixed-form negative doubles just above 1e-6, 24-byte exponent forms, 20-digit integers) written
+    # at every distance from the end of the buffer: the per-number reservation is the only room F64toa / itoa have
+    longest = [b"-0.0000012345678901234567", b"-0.0000098765432109876543", b"-1.7976931348623157e+308", b"-2.2250738585072014e-308",
+               b"18446744073709551615", b"-9223372036854775808", b"0.000001234567890123456"]
+    for pad in (range(0, 300) if not quick else list(range(180, 262)) + rng.sample(range(0, 180), 30)):
+        for num in (longest[0], longest[1 + pad % (len(longest) - 1)]):
+            add(b'["' + b"p" * pad + b'",' + num + b"]", "longest-number", rng.choice([256, 256, 0, 264, 100]), 0)
+    for k in range(0, 140):
+        for num in longest[:2]:
+            # short elements in front: the buffer does not grow before the number, which lands at every distance from its end
+            add(b"[" + b"1," * k + num + b"]", "longest-number", 256, 0)
+            # nested: the up-front estimate only counts the root's own children, so the inner array fills a small buffer gradually
+            for j in (b"", b"22,"):
+                add(b"[[" + b"1," * k + j + num + b"]]", "longest-number", rng.choice([256, 256, 0, 264]), 0)
+            add(b"[" + b"1," * k + rng.choice([b"", b"[],"]) + num + b"," + num + b"]", "longest-number", rng.choice([256, 128, 64]), rng.choice([0, 1]))
+    # long chains of closing brackets behind a small last leaf, in small / fresh / reused buffers: '[[[...leaf...]]]' and the object
+    # form, every depth (quick: sampled) up to 400 - the reservation made when a scope is closed is the only room the closers have
+    depths = list(range(0, 401)) if not quick else sorted(set(rng.sample(range(0, 401), 60) + [38, 39, 40, 41, 42, 80, 81, 82, 83, 126, 127, 128, 129, 130, 255, 256, 257]))
+    for dep in depths:
+        leaf = rng.choice([b"[]", b"{}", b"false", b"true", b"null", b"0", b'""'])
+        for form in (0, 1):
+            if form == 0:
+                t = b"[" * dep + leaf + b"]" * dep
+            else:
+                t = b'{"a":' * dep + leaf + b"}" * dep
+            add(t, "closer-chain", rng.choice([0, 1, 16, 100, 256]), rng.choice([0, 0, 1]))
+        add(b'[' + b'"' + b"p" * rng.randrange(0, 120) + b'",' + b"[" * dep + leaf + b"]" * dep + b"]", "closer-chain", rng.choice([0, 1, 64, 256]), 0)
     # documents assembled through the mutation API (arbitrary string bytes, duplicate keys, every number kind); one third of them
     # contain a non-finite double (both infinities, quiet / signalling / negative / payload NaNs) at a random position or as the root
     for k in range(500 if quick else 40000):
